@@ -172,7 +172,7 @@ class CFG:
         attribute access may jump to the handlers."""
         if not self._handlers or expr is None:
             return
-        risky = any(isinstance(n, (ast.Call, ast.Subscript))
+        risky = any(isinstance(n, (ast.Call, ast.Subscript, ast.Attribute))
                     for n in ast.walk(expr))
         if not risky:
             return
